@@ -551,6 +551,7 @@ impl Monitor for C07 {
             ("readers", tier.pick(1500000, 150000000)),
             ("single", tier.pick(3000000, 300000000)),
             ("convert", tier.pick(600000, 60000000)),
+            ("big", tier.pick(30_000, 1_500_000)),
         ]
     }
 
@@ -599,6 +600,20 @@ impl Monitor for C07 {
             }
             "readers" => self.readers(rep, rng),
             "single" => self.single(rep, rng),
+            "big" => {
+                let mut o = GenOpts::hostile();
+                o.trailing = 9;
+                gen::set_big(true);
+                let case = gen::gen_case(rng, &o);
+                gen::set_big(false);
+                if case.bytes.len() > 60_000 {
+                    rep.count("big_cases");
+                }
+                self.whole(rep, &case);
+                if case.start == Start::Ip {
+                    self.ip_level(rep, &case.bytes);
+                }
+            }
             "convert" => {
                 let mut o = GenOpts::hostile();
                 o.start = match rng.below(3) {
